@@ -30,7 +30,7 @@ CHECKS = {
    note=SEQ_NOTE),
  "C07": dict(engine="seq", cat="model_checking", ref="§4 C07, §2.3",
    technique="explicit-state BFS over counter histories on the real code with a u64 arithmetic oracle",
-   text="All histories up to the bound over 13 stored texts (u64 extremes, leading zeros, signs, blanks, empty, non-UTF-8) x delta/initial/expiration/CAS extremes; oracle: (v+d) mod 2^64, max(v-d,0), 8-byte BE response, stored decimal text, flags kept, creation/0xffffffff rule, non-numeric = 0x06 and unchanged; zero-padded texts of 20, 21 and 40 characters; quiet incr/decr (errors still answered). Second part: the opaque-independence differential (two stores, different opaques, equal responses modulo the opaque and equal stores).",
+   text="All histories up to the bound over 13 stored texts (u64 extremes, leading zeros, signs, blanks, empty, non-UTF-8) x delta/initial/expiration/CAS extremes; oracle: (v+d) mod 2^64, max(v-d,0), 8-byte BE response, stored decimal text, flags kept, creation/0xffffffff rule, non-numeric = 0x06 and unchanged; zero-padded texts of 20, 21 and 40 characters; quiet incr/decr (errors still answered). Second part: the opaque-independence differential (two stores, different opaques, equal responses modulo the opaque and equal stores). For a value that is certainly no decimal u64 the answer is 'non-numeric value' whatever CAS the request carries.",
    note=SEQ_NOTE),
  "C08": dict(engine="seq+sched", cat="model_checking", ref="§4 C08, §2.3",
    technique="explicit-state BFS over delete/flush histories on 3 keys on the real code against the exact-removal model",
@@ -72,19 +72,19 @@ NET_NOTE = ("Trusted: tokio's paused clock advances only when no task is runnabl
 CHECKS.update({
  "C09": dict(engine="net+decoder", cat="model_checking", ref="§4 C09, §2.4, §2.5",
    technique="exhaustive enumeration of every 1-cut, 2-cut and byte-at-a-time segmentation of every corpus stream, at the real decoder and over real loopback TCP on a paused single-thread runtime",
-   text="Corpus: one frame per opcode 0x00-0x24 plus 20 anomalous-but-accepted frames (unexpected extras/value, wrong extras length, oversized), each followed by noop/set/get (thorough: all ordered pairs). Oracles: every frame is taken from exactly 24+body bytes by a fresh decoder; decoder outcome and socket responses/final store identical for every segmentation; the unsegmented socket result equals the frame-wise expectation or the connection is closed; answered requests in front of every rejected frame reach the client wherever the stream is cut; a fresh connection opened after every stream gets exactly one noop answered (nothing of a stream reaches another connection).",
+   text="Corpus: one frame per opcode 0x00-0x24 plus 20 anomalous-but-accepted frames (unexpected extras/value, wrong extras length, oversized), each followed by noop/set/get (thorough: all ordered pairs). Oracles: every frame is taken from exactly 24+body bytes by a fresh decoder; decoder outcome and socket responses/final store identical for every segmentation; the unsegmented socket result equals the frame-wise expectation or the connection is closed; answered requests in front of every rejected frame reach the client wherever the stream is cut; a fresh connection opened after every stream gets exactly one noop answered (nothing of a stream reaches another connection). Every frame is also sent on its own (nothing behind it that could complete a short read), and every oversized frame between answered requests and a follower.",
    note=NET_NOTE),
  "C12": dict(engine="net", cat="model_checking", ref="§4 C12, §2.5",
    technique="exhaustive enumeration of pipelined request streams over all opcodes (depth 2, thorough 3, quit/quitq at every position) on real loopback TCP, validated by the sequential specification",
-   text="Every stream of 1-2 (thorough 3) requests over a 48-element alphabet (incl. oversized set/setq, also delivered in three pieces cut inside the body) (every opcode 0x00-0x24 with hit/miss and success/error operands, loud/quiet, unimplemented, undefined) plus every stream with quit/quitq in the middle, sent in one segment and byte-at-a-time; responses are matched by opaque in order: exactly one per loud known opcode, quiet only on error/hit, quit answered then EOF, quitq EOF without answer, nothing after either executed (final store compared), not even on the next connection (a fresh connection after every stream: one noop, exactly one answer). Third delivery mode: one segment followed at once by the client FIN (everything sent is still executed and answered).",
+   text="Every stream of 1-2 (thorough 3) requests over a 48-element alphabet (incl. oversized set/setq, also delivered in three pieces cut inside the body) (every opcode 0x00-0x24 with hit/miss and success/error operands, loud/quiet, unimplemented, undefined) plus every stream with quit/quitq in the middle, sent in one segment and byte-at-a-time; responses are matched by opaque in order: exactly one per loud known opcode, quiet only on error/hit, quit answered then EOF, quitq EOF without answer, nothing after either executed (final store compared), not even on the next connection (a fresh connection after every stream: one noop, exactly one answer). Third delivery mode: one segment followed at once by the client FIN (everything sent is still executed and answered). Late-reader scenarios: pipelined gets of 64-256 KiB then quit or the client's FIN, first read after the server ran: every response whole, then a clean end of stream (no reset).",
    note=NET_NOTE),
  "C13": dict(engine="net", cat="model_checking", ref="§4 C13, §2.5",
    technique="exhaustive grid limit x body length x opcode x pipeline position x bytes-already-buffered x buffer-pregrown on real loopback TCP against an in-process reference",
-   text="Full grid (limits 1 KiB..4 MiB, L in {limit-1,limit,limit+1,2*limit,limit+200000}, every opcode, first/middle/last, B in {0,1,L/2-1,L/2,L/2+1,L-1,L,all+next}, receive buffer pre-grown or not): the oversized request is answered 0x03 with opcode/opaque echoed, the store equals a run without it, every other request is answered as in that run, L <= limit is never refused for size (stores at limit-1/limit; every opcode 0..0x24 with a small body delivered whole, header first, or last byte late); header shapes of the oversized request: 3-byte, 251-byte, 65535-byte key, 21 extras bytes. Two clients inside oversized bodies at once: the one that completes is answered while the other pauses.",
+   text="Full grid (limits 1 KiB..4 MiB, L in {limit-1,limit,limit+1,2*limit,limit+200000}, every opcode, first/middle/last, B in {0,1,L/2-1,L/2,L/2+1,L-1,L,all+next}, receive buffer pre-grown or not): the oversized request is answered 0x03 with opcode/opaque echoed, the store equals a run without it, every other request is answered as in that run, L <= limit is never refused for size (stores at limit-1/limit; every opcode 0..0x24 with a small body delivered whole, header first, or last byte late); header shapes of the oversized request: 3-byte, 251-byte, 65535-byte key, 21 extras bytes. Two clients inside oversized bodies at once: the one that completes is answered while the other pauses. The key named by the oversized request already holds an item (a refused request changes nothing).",
    note=NET_NOTE),
  "C17": dict(engine="net", cat="fault_enumeration", ref="§4 C17, §2.5",
    technique="exhaustive enumeration of connection-lifecycle sequences (13 ending kinds, limits 1..4, length <= limit+2, two ending orders) against the real accept loop/semaphore on loopback TCP with virtual time",
-   text="13 ending kinds (client close, quit, quitq, close mid-request, bad magic, oversized item then close, idle timeout, abortive reset, stall inside a request until the timeout, stall inside an oversized body until the timeout, quit then hang up without reading, quit / quitq with the client keeping its socket open), plus queued clients that leave silently and connections reset before they were accepted. After every open/end event exactly min(open, limit) connections are served; after every history limit+1 fresh probes: exactly limit answered, the extra one as soon as a slot frees; accept loop alive (a refused connection is a violation). Plus: clients that queue silently behind a full limit for 0..150 s of virtual time while the holders stay active, then send their first request when a slot frees (must be served, in order).",
+   text="13 ending kinds (client close, quit, quitq, close mid-request, bad magic, oversized item then close, idle timeout, abortive reset, stall inside a request until the timeout, stall inside an oversized body until the timeout, quit then hang up without reading, quit / quitq with the client keeping its socket open), plus queued clients that leave silently and connections reset before they were accepted. After every open/end event exactly min(open, limit) connections are served; after every history limit+1 fresh probes: exactly limit answered, the extra one as soon as a slot frees; accept loop alive (a refused connection is a violation). Plus: clients that queue silently behind a full limit for 0..150 s of virtual time while the holders stay active, then send their first request when a slot frees (must be served, in order). Plus: 2-4 accept loops sharing the one semaphore (as --threads N sets up): while fewer than limit connections are held, 16 fresh connections one after another are each served at once.",
    note=NET_NOTE),
  "C18": dict(engine="net", cat="fault_enumeration", ref="§4 C18, §2.5",
    technique="exhaustive enumeration of every cut offset of pipelined streams x 7 fault kinds on real loopback TCP with an observer connection, compared with in-process execution of the completed prefix",
@@ -95,11 +95,11 @@ CHECKS.update({
 CHECKS.update({
  "C10": dict(engine="grid+net", cat="exploration", ref="§4 C10, §2.4",
    technique="exhaustive boundary-grid enumeration of header fields x bytes available x store state through the real decode/handle/encode path under catch_unwind (overflow checks on), a socket sub-grid with virtual-time silence, and explicit-state BFS over the command histories of every sequential alphabet (no panic, every command returns)",
-   text="About 0.5 M distinct headers (opcode 0..255 x key/extras/body lengths around every limit x bytes available x CAS extremes x stored value x incr/decr operand extremes, wrong magic/data type): no panic, the decoder makes progress or waits or fails, a header invalid by the property's list is never executed (no success response, store unchanged), buffer capacity stays below limit+24+4096; 19 k of them replayed over real TCP with 61 s of virtual silence: no task panic, connection closed, server still serving; oversized bodies delivered in three pieces with pipelined followers (no panic in the discard loop); oversized bodies streamed in 512-byte reads (buffered bytes stay below limit+24+4096). Second part: every command history of the nine sequential alphabets up to their quick depths (stateful: expired items, CAS, eviction, clock steps) on the real path - no panic, no decode error on a valid request, every command returns (30 s watchdog). Exhaustive over the grid and the histories, not over all byte strings (random bytes are sampling and outside this technique).",
+   text="About 0.5 M distinct headers (opcode 0..255 x key/extras/body lengths around every limit x bytes available x CAS extremes x stored value x incr/decr operand extremes, wrong magic/data type): no panic, the decoder makes progress or waits or fails, a header invalid by the property's list is never executed (no success response, store unchanged), buffer capacity stays below limit+24+4096; 19 k of them replayed over real TCP with 61 s of virtual silence: no task panic, connection closed, server still serving; oversized bodies delivered in three pieces with pipelined followers (no panic in the discard loop); oversized bodies streamed in 512-byte reads (buffered bytes stay below limit+24+4096). Second part: every command history of the nine sequential alphabets up to their quick depths (stateful: expired items, CAS, eviction, clock steps) on the real path - no panic, no decode error on a valid request, every command returns (30 s watchdog). Exhaustive over the grid and the histories, not over all byte strings (random bytes are sampling and outside this technique). Third part: every well-formed corpus frame on its own, delivered to the decoder in two pieces at every cut, must be taken exactly as when delivered whole.",
    note="Trusted: the harness profile really has overflow-checks on (profile.dev in mc/Cargo.toml); panic capture via a process-wide hook. " + NET_NOTE),
  "C11": dict(engine="seq", cat="model_checking", ref="§4 C11, §2.3",
    technique="explicit-state BFS over histories of every opcode x every outcome on the real code; every encoded response re-parsed by an independent parser",
-   text="Socket part: pipelined getk of 0.07-1 MB items, read only after the server blocked on the full socket: every frame whole and in order. Sequential part: 62-command alphabet (every opcode, loud and quiet, hit/miss/exists/not-found/too-large/non-numeric, 250-byte and binary keys, opaques 0/0xabad1dea/0xffffffff/0x80000001), all histories to the bound: every response frame has magic 0x81, opcode and opaque echoed, data type 0, status in the table, body length = extras+key+value, 4 extras on hits, key only for getk, 8 bytes for counters, text on errors; exactly one frame per loud request. The same rules are applied to every response of the C12 socket runs. Requests carry vbucket ids 0 / 7 / 0xffff by command index (a reserved field: nothing may depend on it).",
+   text="Socket part: pipelined getk of 0.07-1 MB items, read only after the server blocked on the full socket: every frame whole and in order. Sequential part: 62-command alphabet (every opcode, loud and quiet, hit/miss/exists/not-found/too-large/non-numeric, 250-byte and binary keys, opaques 0/0xabad1dea/0xffffffff/0x80000001), all histories to the bound: every response frame has magic 0x81, opcode and opaque echoed, data type 0, status in the table, body length = extras+key+value, 4 extras on hits, key only for getk, 8 bytes for counters, text on errors; exactly one frame per loud request. The same rules are applied to every response of the C12 socket runs. Requests carry vbucket ids 0 / 7 / 0xffff by command index (a reserved field: nothing may depend on it). Third part: correlation across connections - every stream <request> <quit|quitq|undefined opcode> <request> leaves bytes unconsumed when the server closes; a fresh connection's noop must then receive exactly its own answer.",
    note=SEQ_NOTE),
  "C19": dict(engine="seq-pair", cat="model_checking", ref="§4 C19, §2.3",
    technique="explicit-state BFS over pairs of real systems (loud run, toggled run); the loud/quiet toggle is part of the alphabet so every subset of positions is covered; every toggled history up to depth 2 (thorough 3) is also sent as pipelined writes to a real TCP server and compared with the in-process run",
